@@ -63,7 +63,14 @@ class Defn:
         return ",".join(f"{p.pid}:{p.duration_us}" for p in self.periods)
 
     def total_us(self):
-        return sum(p.duration_us for p in self.periods)
+        """total *presentation* duration (what the builders tile the timeline with)"""
+        return sum(quantise(p.duration_us) for p in self.periods)
+
+
+def quantise(us: int) -> int:
+    """a stored Period duration as the manifest presents it: rounded half up to a millisecond
+    (the resolution of xs:duration text)"""
+    return (us + 500) // 1000 * 1000
 
 
 def td(us: int) -> datetime.timedelta:
@@ -307,6 +314,9 @@ def gen_inside(rng, app, n_periods: int | None = None) -> Defn:
             dur = rng.randrange(1, mx // 1000 + 1) * 1000
         else:
             dur = max(1000, min(mx, rng.choice([1000, 500_000, 1_999_000, 4_000_000, 4_001_000, 7_999_000])))
+        dur = dur // 1000 * 1000
+        if rng.random() < .3:      # stored durations need not be whole milliseconds (fix 983f9d5)
+            dur = max(1, dur + rng.randrange(-500, 500))
         out.append(PDef(pid=gen_pid(rng, i), stream=stream, start_us=start, duration_us=dur, tracks=tracks))
     return Defn(out)
 
@@ -341,7 +351,7 @@ def gen_builder_only(rng, app) -> Defn:
             dur = rng.choice([1, 999, 1_000_001, 3_600_000_000, 86_400_000_000])
         out.append(PDef(pid=gen_pid(rng, i), stream=stream, start_us=rng.randrange(0, 30_000_000),
                         duration_us=dur, tracks=gen_tracks(rng, stream)))
-    if sum(p.duration_us for p in out) < n * 500_000:      # keep the live lists short
+    if sum(quantise(p.duration_us) for p in out) < n * 500_000:      # keep the live lists short
         out[rng.randrange(n)].duration_us = rng.randrange(1, 20) * 1_000_000 + rng.choice([0, 0, 1, 999_999])
     return Defn(out)
 
